@@ -7,8 +7,10 @@ multi-index is the zero vector (TA + structure of generate_indices/_make_Gamma);
 the propagation loop is the Taylor scheme; the -1 sentinel of the link tables
 is excluded by the guards or multiplied by a vanishing order (finite
 evaluation of the guard expressions); the scratch hierarchy is reset before a
-run.  Not decided: completeness of the index set for arbitrary depth,
-convergence with depth, the zero-coupling limit as numbers.
+run.  The index set, the level tables, the raising/lowering links and the decay factors are
+decided by interpreting the constructor on every (number of baths, depth) up to a stated bound
+(qv/feval.py).  Not decided: the index set beyond that bound, convergence with depth, the
+zero-coupling limit as numbers.
 """
 import ast
 
@@ -27,10 +29,14 @@ def check(run, prog, tier):
         "tables as opaque index maps: Hermiticity of every term, the factor dt, which terms carry the "
         "order n_k; structure of generate_indices/_make_Gamma for the root; Taylor recogniser on "
         "propagate(); finite evaluation of the link guards over the sign classes of (n_k, link); "
-        "reset-before-use of the auxiliary operators. Not decided: index-set completeness, depth "
-        "convergence, numerical limits.")
+        "reset-before-use of the auxiliary operators; finite evaluation (qv/feval.py) of the tail of "
+        "KTHierarchy.__init__ with generate_indices/_convert_2_matrix/_make_nmp1/_make_Gamma for 1-4 baths and "
+        "depths 0-3 (thorough: up to depth 5 and 5 baths) against the complete index set, level offsets, "
+        "mutually inverse links with -1 exactly at the boundaries, and Gamma = sum n_k gamma_k. Not decided: "
+        "the index set beyond the bound, depth convergence, numerical limits.")
     run.trusted_base = ["system-bath operators Vs and the Hamiltonian are Hermitian; lam, gamma, kBT real",
-                        "the index set is complete, so a missing lower link occurs only with n_k = 0"]
+                        "beyond the evaluated bound (C16-E) the index set is complete, so a missing lower link occurs "
+                        "only with n_k = 0"]
     run.rule("C16-A", "right-hand sides: Hermiticity, step factor, trace-free root equation (TA)", minimum=8)
     run.rule("C16-B", "propagate() is the Taylor scheme over both right-hand sides", minimum=8)
     run.rule("C16-C", "link sentinel excluded by the guards (finite evaluation)", minimum=6)
@@ -39,6 +45,101 @@ def check(run, prog, tier):
     rule_B(run, prog)
     rule_C(run, prog)
     rule_D(run, prog)
+    run.rule("C16-E", "index set, level tables, links and decay factors of the hierarchy (finite evaluation of the "
+                      "constructor)", minimum=6)
+    rule_E(run, prog, tier)
+
+
+def rule_E(run, prog, tier):
+    """The tail of KTHierarchy.__init__ (from the generation of the indices on) together with
+    generate_indices, _convert_2_matrix, _make_nmp1 and _make_Gamma is interpreted (qv/feval.py) for every
+    number of baths and depth up to the bound, and the resulting tables are compared with the statement
+    of the property: every multi-index with total order <= depth exactly once, level by level; level
+    offsets and lengths; lower and upper links mutually inverse and absent (-1) exactly at the
+    boundaries; Gamma[n] = sum_k n_k gamma_k."""
+    import itertools
+    import math
+    from .. import feval
+    from ..feval import Stub, Sym, SymArr, Vec
+    rid = "C16-E"
+    cls = prog.cls(HE + "KTHierarchy")
+    init = cls.methods["__init__"]
+    body = init.node.body
+    start = [k for k, s_ in enumerate(body) if isinstance(s_, ast.Assign) and isinstance(s_.value, ast.Call)
+             and call_name(s_.value) == "generate_indices"]
+    if len(start) != 1:
+        raise AnalysisError("KTHierarchy.__init__: call of generate_indices not found")
+    tail = body[start[0]:]
+    bound = [(nb, d) for nb in (1, 2, 3) for d in (0, 1, 2, 3)] + ([(4, 2)] if tier != "thorough" else
+                                                                 [(nb, d) for nb in (1, 2, 3, 4) for d in (4, 5)] + [(4, 2), (4, 3), (5, 2)])
+    for nb, depth in bound:
+        so = Stub("KTHierarchy", nbath=nb, depth=depth, gamma=SymArr("g"),
+                  sbi=Stub("SystemBathInteraction", KK=SymArr("K")), ado=None)
+        so.methods = {nme: feval.interpreted_method(so, cls.methods[nme].node)
+                      for nme in ("generate_indices", "_convert_2_matrix", "_make_nmp1", "_make_Gamma")
+                      if nme in cls.methods}
+        so.methods["reset_ados"] = lambda: None
+        env = {"self": so, "depth": depth, "REAL": "REAL", "COMPLEX": "COMPLEX"}
+        try:
+            feval.Evaluator(max_steps=5000000).block(tail, env)
+        except feval.Unsupported as e:
+            raise AnalysisError("KTHierarchy.__init__ (N=%d, depth=%d): outside the finite evaluator's vocabulary: %s"
+                                % (nb, depth, e))
+        except feval.Raised as e:
+            run.obligation(rid, "KTHierarchy.__init__", False, key="finite:N=%d,depth=%d" % (nb, depth),
+                           message="construction raises %s" % e, loc=init.loc())
+            continue
+        problems = []
+        hinds = [tuple(r) for r in so.attrs.get("hinds", [])]
+        want = []
+        for lev in range(depth + 1):
+            want.append(sorted(t_ for t_ in itertools.product(range(lev + 1), repeat=nb) if sum(t_) == lev))
+        flat_want = [t_ for lv in want for t_ in lv]
+        if sorted(hinds) != sorted(flat_want):
+            missing = sorted(set(flat_want) - set(hinds))
+            dup = sorted({h for h in hinds if hinds.count(h) > 1})
+            extra = sorted(set(hinds) - set(flat_want))
+            problems.append("index set: missing %s, duplicated %s, beyond the depth %s" % (missing[:3], dup[:3], extra[:3]))
+        if [sum(h) for h in hinds] != sorted(sum(h) for h in hinds):
+            problems.append("multi-indices are not ordered level by level")
+        if so.attrs.get("hsize") != len(flat_want):
+            problems.append("hsize = %s, expected %d" % (so.attrs.get("hsize"), len(flat_want)))
+        offs, o = [], 0
+        for lv in want:
+            offs.append(o)
+            o += len(lv)
+        if list(so.attrs.get("levels", [])) != offs:
+            problems.append("level offsets %s, expected %s" % (list(so.attrs.get("levels", [])), offs))
+        if list(so.attrs.get("levlengths", [])) != [len(lv) for lv in want]:
+            problems.append("level lengths %s, expected %s" % (list(so.attrs.get("levlengths", [])), [len(lv) for lv in want]))
+        if not problems:
+            pos = {h: i for i, h in enumerate(hinds)}
+            nm1, np1 = so.attrs.get("nm1"), so.attrs.get("np1")
+            for n_, h in enumerate(hinds):
+                for k in range(nb):
+                    lo = tuple(x - (1 if j == k else 0) for j, x in enumerate(h))
+                    hi = tuple(x + (1 if j == k else 0) for j, x in enumerate(h))
+                    e_lo = pos.get(lo, -1) if h[k] > 0 else -1
+                    e_hi = pos.get(hi, -1) if sum(h) < depth else -1
+                    if nm1[n_][k] != e_lo:
+                        problems.append("lower link of %s in bath %d is %s, expected %s" % (h, k, nm1[n_][k], e_lo))
+                    if np1[n_][k] != e_hi:
+                        problems.append("upper link of %s in bath %d is %s, expected %s" % (h, k, np1[n_][k], e_hi))
+                    if e_hi >= 0 and nm1[e_hi][k] != n_:
+                        problems.append("links of %s in bath %d are not mutually inverse" % (h, k))
+            G = so.attrs.get("Gamma")
+            for n_, h in enumerate(hinds):
+                exp = Sym(0.0)
+                for k in range(nb):
+                    exp = exp + Sym(float(h[k]), ("g[%d]" % k,))
+                got = G[n_]
+                got = got if isinstance(got, Sym) else Sym(got)
+                if not got.same(exp):
+                    problems.append("Gamma of %s is %r, expected %r" % (h, got, exp))
+        run.obligation(rid, "KTHierarchy.__init__", not problems, key="finite:N=%d,depth=%d" % (nb, depth),
+                       message="hierarchy tables for %d bath(s) and depth %d deviate: %s" % (nb, depth, "; ".join(problems[:4])),
+                       loc=init.loc(), sample={"baths": nb, "depth": depth, "size": len(flat_want),
+                                               "expected_size": math.comb(nb + depth, depth)})
 
 
 def _hy_provider():
